@@ -474,6 +474,11 @@ func c04(r *core.Run) {
 						if d == `github.com/nats-io/nats.go.Msg.Reply==""` {
 							refusal = "no reply subject: nothing to answer"
 						}
+						if cnd, succ := e.Norm(); true {
+							if known, nonEmpty := replySubjectFact(cnd, succ == 0); known && !nonEmpty {
+								refusal = "no reply subject: nothing to answer"
+							}
+						}
 						if strings.HasPrefix(d, "call:strings.IndexByte<0") || strings.HasPrefix(d, "call:strings.LastIndexByte<0") {
 							refusal = "subject without the separator the subscription patterns guarantee (cannot be delivered by a conformant server)"
 						}
@@ -671,6 +676,10 @@ func onNoReplySubjectEdge(in ssa.Instruction) bool {
 	for _, e := range dominatingEdges(in) {
 		if describeCond(e) == `github.com/nats-io/nats.go.Msg.Reply==""` {
 			return true
+		}
+		cnd, succ := e.Norm()
+		if known, nonEmpty := replySubjectFact(cnd, succ == 0); known && !nonEmpty {
+			return true // the same test spelt with len()
 		}
 	}
 	return false
